@@ -46,6 +46,7 @@ type Exec struct {
 	assumeFalseAtExit bool
 	known     []*KnownFinding
 	entryHeld map[string][]Term
+	extraProp string
 	arrOf     map[string]string // heap array version -> array name
 	closedIface map[string]bool
 	topFrame  *Frame
@@ -162,6 +163,9 @@ func blockPos(b *ssa.BasicBlock) token.Pos {
 	// position of the loop statement: the earliest valid position among the header's and
 	// its predecessors' instructions is unreliable; use the first positioned instruction in the header.
 	for _, in := range b.Instrs {
+		if _, isPhi := in.(*ssa.Phi); isPhi {
+			continue // a phi carries the position of its variable's declaration, not of the loop
+		}
 		if p := in.Pos(); p.IsValid() {
 			return p
 		}
@@ -273,6 +277,9 @@ func (x *Exec) safety(fr *Frame, st *State, in ssa.Instruction, kind string, goa
 // safetyProps: a panic violates C07 and every postcondition of the function being verified.
 func (x *Exec) safetyProps() []string {
 	props := []string{"C07"}
+	if x.extraProp != "" {
+		props = unionProps(props, []string{x.extraProp})
+	}
 	if x.contract != nil {
 		for _, cl := range x.contract.Ensures {
 			props = unionProps(props, cl.Props)
@@ -580,7 +587,19 @@ func (x *Exec) bindPhis(fr *Frame, st *State, b, pred *ssa.BasicBlock) {
 	}
 	for i, phi := range phis {
 		st.regs[phi] = vals[i]
+		x.namePhi(fr, st, phi)
 	}
+}
+
+// namePhi: after a merge the source variable is held by the phi (spec expressions refer to variables by name).
+func (x *Exec) namePhi(fr *Frame, st *State, phi *ssa.Phi) {
+	if phi.Comment == "" || phi.Comment == "rangeindex" {
+		return
+	}
+	if st.names == nil {
+		st.names = map[string]ssa.Value{}
+	}
+	st.names[fmt.Sprintf("%d.%s", fr.id, phi.Comment)] = phi
 }
 
 func (x *Exec) execFrom(fr *Frame, st *State, b *ssa.BasicBlock, i int, k Cont) {
@@ -588,6 +607,13 @@ func (x *Exec) execFrom(fr *Frame, st *State, b *ssa.BasicBlock, i int, k Cont) 
 		in := b.Instrs[i]
 		switch t := in.(type) {
 		case *ssa.DebugRef:
+			// remember which SSA value currently holds each source variable (for loop invariants)
+			if id, ok := t.Expr.(*ast.Ident); ok && !t.IsAddr {
+				if st.names == nil {
+					st.names = map[string]ssa.Value{}
+				}
+				st.names[fmt.Sprintf("%d.%s", fr.id, id.Name)] = t.X
+			}
 			continue
 		case *ssa.Call:
 			idx := i
@@ -1222,7 +1248,12 @@ func (x *Exec) convert(fr *Frame, st *State, t *ssa.Convert) Val {
 			return Val{K: VTerm, T: s, Typ: to}
 		}
 		if fi {
-			return Val{K: VTerm, T: x.enc.UF("str.of.rune", SStr, v.T), Typ: to}
+			r := x.enc.UF("str.of.rune", SStr, v.T)
+			// a code point below 128 is encoded as exactly that one byte
+			if !x.enc.BV {
+				st.assume(Implies(And(app(SBool, "<=", IntLit(0), v.T), app(SBool, "<", v.T, IntLit(128))), And(Eq(app(SInt, "slen", r), IntLit(1)), Eq(app(SInt, "sat", r, IntLit(0)), v.T))))
+			}
+			return Val{K: VTerm, T: r, Typ: to}
 		}
 	}
 	if sl, ok := types.Unalias(to).Underlying().(*types.Slice); ok && fIsB && fb.Info()&types.IsString != 0 {
